@@ -264,7 +264,7 @@ class C18(Check):
         if v is not None:
             return v
         pairs = [(a, b) for a in sorted(self.SWEEP_T0) for b in sorted(self.SWEEP_T1)]
-        cap = 24 if tier == "quick" else 600          # points per pair: all of a short call, evenly spaced ones (offset rotating with the seed) of a long one
+        cap = 24 if tier == "quick" else 160          # points per pair: all of a short call, evenly spaced ones (offset rotating with the seed) of a long one
         total = 0
         for n, (a, b) in enumerate(pairs):
             if n % nshards != shard:
